@@ -79,7 +79,21 @@ func genC07(c *RunCtx) []*Batch {
 	calls, progs := 0, 0
 	for k := 0; k < nExpr; k++ {
 		var t *GT
-		if r.Intn(3) == 0 {
+		if k%5 == 4 {
+			// list constants that survive folding (the program holds slices: anything that writes through them shows)
+			strs := []string{"alice", "bob", "x y", "q"}[:2+r.Intn(3)]
+			ints := []int64{3, 1, 4, 1, 5}[:2+r.Intn(4)]
+			switch r.Intn(4) {
+			case 0:
+				t = gop("in", gvar("s0"), gconst(append([]string{}, strs...)))
+			case 1:
+				t = gop("overlap", gvar("ls0"), gconst(append([]string{}, strs...)))
+			case 2:
+				t = gop("or", gop("in", gvar("i0"), gconst(append([]int64{}, ints...))), gop("in", gvar("s0"), gconst(append([]string{}, strs...))))
+			default:
+				t = gif(gop("in", gvar("s1"), gconst(append([]string{}, strs...))), gconst(int64(1)), gop("+", gvar("i1"), gconst(int64(2))))
+			}
+		} else if r.Intn(3) == 0 {
 			t = deepTree(r)
 		} else {
 			gc := randGenCfg(r)
